@@ -790,7 +790,9 @@ class RosFormatter(CommonFormatter):
             else:
                 patch_items.append((key, None, context))
 
-        commands = odict()
+        # a list of (path, context), not a dict keyed by path: the menu line of a section is sent again after its sub-sections, and the
+        # same command text may occur in several menus
+        commands = JuniperPatch()
         prev_cmd = None
         prev_context = None
         for childs, items in itertools.groupby(patch_items, lambda x: x[1]):
